@@ -152,3 +152,33 @@ def check_field_faithful_clone(F, R, adt, inst_prefix):
         sl = A.slice_back(b, [op])
         src = sorted({n for o, n in sl.fields if o == adt})
         R.check(src == [name], f"{inst_prefix}/clone-field/{name}", s, f"{name}: self.{name}", f"`{adt}::clone` fills field `{name}` from {src}: a cloned value behaves differently from the original")
+
+
+def family(F, body, depth=3, stop=()):
+    """`body`, the closures / coroutines nested in it, and — transitively, up to `depth` calls — the crate-local
+    *private helper* fns it calls (inherent or free fns of the same top-level module, not trait methods), with their
+    nested bodies.  Lets "find X in role R" queries survive the extraction of a helper function."""
+    mod = body.name.lstrip("<").split("::")[0]
+    seen = {}
+    work = [(b, 0) for b in F.nested(body)]
+    stop_keys = {s.key for s in stop}
+    while work:
+        b, d = work.pop()
+        if b.key in seen or b.key in stop_keys:
+            continue
+        seen[b.key] = b
+        if d >= depth:
+            continue
+        for s, t in b.calls():
+            cb = F.callee_body(t, b.crate)
+            if cb is None or cb.key in seen:
+                continue
+            if cb.impl and cb.impl.get("trait"):
+                continue
+            if cb.name.lstrip("<").split("::")[0] != mod:
+                continue
+            if cb.vis == "Public":
+                continue
+            for nb in F.nested(cb):
+                work.append((nb, d + 1))
+    return list(seen.values())
